@@ -842,6 +842,39 @@ fn casts_for<T: El>(tr: &mut Trace, rng: &mut Rng, thorough: bool) {
     }
 }
 
+/// Interp2D batch queries whose x and y arrays have different storage kinds (view / owned / shared): the three
+/// casts of the rank-1 fast path name both storage types.  Run as its own driver process: if a cast relabelled
+/// different types the behaviour is undefined and the process may die.
+pub fn casts_mixed(tr: &mut Trace, rng: &mut Rng, _thorough: bool) {
+    for (dtag, trailing) in [("Ix2", vec![]), ("Ix3", vec![2usize]), ("IxDyn", vec![3])] {
+        tr.reset("casts-mixed");
+        let (nx, ny) = (4usize, 3usize);
+        let x: Vec<f64> = (0..nx).map(|i| 1.5 * i as f64).collect();
+        let y: Vec<f64> = (0..ny).map(|i| -2.0 + 2.5 * i as f64).collect();
+        let mut shape = vec![nx, ny];
+        shape.extend_from_slice(&trailing);
+        let data = gen::data::<f64>(rng, &shape, "uniform");
+        let dr = real(&data, Lay::C);
+        let xr = real1(&x, Lay::C);
+        let yr = real1(&y, Lay::C);
+        let cfg = Cfg2 { x: Some(&xr), y: Some(&yr), data: &dr, dtag, store: Store::Owned };
+        if let Some(b) = do_build2(tr, &cfg, &Strat2::Bilinear { ex: false }, &[]) {
+            let px = vec![x[0], 2.0, x[nx - 1], 0.25, 3.75, 1.5, 4.0];
+            let py = vec![y[ny - 1], -1.0, y[0], 0.5, 2.75, -2.0, 3.0];
+            for mix in 0..6u8 {
+                tr.mix = mix;
+                for tag in ["Ix1", "IxDyn"] {
+                    let qx = arr_q(&[px.len()], px.clone(), Lay::C);
+                    let qy = arr_q(&[py.len()], py.clone(), Lay::C);
+                    b.q(tr, Entry::Array, tag, &qx, &qy, Lay::C);
+                    b.q(tr, Entry::ArrayInto, tag, &qx, &qy, Lay::C);
+                }
+            }
+            tr.mix = 0;
+        };
+    }
+}
+
 pub fn casts(tr: &mut Trace, rng: &mut Rng, thorough: bool) {
     casts_for::<f64>(tr, rng, thorough);
     casts_for::<f32>(tr, rng, thorough);
